@@ -83,7 +83,7 @@ func main() {
 		fmt.Fprintln(os.Stderr, "unknown scenario or missing -out")
 		os.Exit(2)
 	}
-	if s.NeedsVirtual && !isVirtual {
+	if s.NeedsVirtual && !canSteerClock() {
 		fmt.Fprintln(os.Stderr, "scenario needs the faketime build")
 		os.Exit(2)
 	}
